@@ -540,3 +540,15 @@ package schema
 //@   ensures result.WhenAndMustContext.Mach == mach
 //@ func NewWhenContext
 //@   nopanic
+
+// ---------------------------------------------------------------------------
+// Choice and case nodes are transparent for whatever implements the Choice /
+// Case interface (compile.Extensions may wrap the nodes in its own types), not
+// only for the package's own *choice and *ycase.
+
+//@ func choiceNode
+//@   nopanic
+//@   ensures result == is(n, Choice)
+//@ func caseNode
+//@   nopanic
+//@   ensures result == is(n, Case)
